@@ -223,6 +223,17 @@ pub fn run(tier: Tier) -> i32 {
                             };
                             accepted.push(a);
                         }
+                        // one case in eight: the received name carries a decoration (array / path suffixes, the short
+                        // non-alphanumeric literals of deserr's own sources) that a call site might strip before
+                        // asking the helper
+                        let received = if rng.random_range(0..8) == 0 {
+                            let mut decos: Vec<String> = ["[]", "[0]", ".", "$", " ", "-"].iter().map(|s| s.to_string()).collect();
+                            decos.extend(dv_core::genp::dict().strs.iter().filter(|d| !d.is_empty() && d.len() <= 3 && !d.chars().any(|c| c.is_alphanumeric())).take(12).cloned());
+                            let d = decos[rng.random_range(0..decos.len())].clone();
+                            if rng.random_range(0..3) == 0 { format!("{d}{received}") } else { format!("{received}{d}") }
+                        } else {
+                            received
+                        };
                         st.evaluations += 1;
                         if let Some(b) = budget(&received) {
                             let ds: Vec<usize> = accepted.iter().map(|a| dl(&received, a)).collect();
